@@ -104,3 +104,8 @@ package types
 //@ contract interface ChannelKeeperV2.SetClientForAlias
 //@   modifies world(ctx)
 //@   ensures one_key: onlyKeyChanged(old(world(ctx)), world(ctx), channelID + "alias")
+
+//@ contract IsValidChannelID
+//@   pure
+//@   abstract
+//@   ensures result == (nth(ParseChannelSequence(channelID), 1) == nil)
